@@ -7,7 +7,7 @@ note = sys.argv[6] if len(sys.argv) > 6 else ""
 src = "/tmp/seed_%s/%s" % (prop, var); dst = "/verif/seeded/%s%s" % (prop, var)
 os.makedirs(dst, exist_ok=True)
 for f in glob.glob(src + "/*"):
-    if os.path.getsize(f) < 200000 and not f.endswith(".log"):
+    if os.path.isfile(f) and os.path.getsize(f) < 200000 and not f.endswith(".log"):
         shutil.copy(f, dst)
 title = ""
 try:
